@@ -238,3 +238,32 @@ def origin_val(f, p):
         sk, spol = atom_sub(f, n)
         out[sk] = v if spol == apol else (not v)
     return out
+
+
+def string_hooks(extra=None):
+    """call hooks that model SimpleString values as ("str", text) for the evaluator (use with pass_object = True)"""
+    def txt(v):
+        if isinstance(v, tuple) and v and v[0] == "str":
+            return v[1]
+        return None
+
+    def two(fn):
+        def h(*a_):
+            if len(a_) < 2 or txt(a_[0]) is None or txt(a_[1]) is None:
+                return None
+            return fn(txt(a_[0]), txt(a_[1]))
+        return h
+
+    def one(fn):
+        def h(*a_):
+            if not a_ or txt(a_[0]) is None:
+                return None
+            return fn(txt(a_[0]))
+        return h
+    H = {"operator==": two(lambda a, b: 1 if a == b else 0), "operator!=": two(lambda a, b: 1 if a != b else 0),
+         "SimpleString::size": one(len), "SimpleString::isEmpty": one(lambda a: 1 if not a else 0),
+         "SimpleString::startsWith": two(lambda a, b: 1 if a.startswith(b) else 0), "SimpleString::endsWith": two(lambda a, b: 1 if a.endswith(b) else 0),
+         "SimpleString::contains": two(lambda a, b: 1 if b in a else 0), "SimpleString::asCharString": one(lambda a: ("str", a)),
+         "SimpleString::equalsNoCase": two(lambda a, b: 1 if a.lower() == b.lower() else 0)}
+    H.update(extra or {})
+    return H
